@@ -11,8 +11,12 @@
                compared with NumPy's answer on every case.
  kernel level: _grouped_reduce / _calc_counts_invidx on raw arrays (captured from the API runs and
                generated directly, incl. int8/uint8 groups with lengths around 127/255) vs the model.
- differential only (no Coq): mean / var / std against exact rationals and NumPy, nan-reductions on
-               float data with NaN, dtype= requests, result dtypes."""
+ differential only (no Coq): mean / var / std / nanmean and sum / prod / any / all / min / max for every DATA dtype
+               (bool, uint8, int8, int16, int32, int64, float32, float64) on COO and GCXS, partial and full
+               reductions: values (exact rationals and NumPy) and RESULT DTYPE; nan-reductions on float32/64
+               data with NaN; dtype= requests; +-inf fills.  The dtype-promotion decision of mean / var is
+               additionally generated from the source (S_reduce.v: s_mean_dtype, s_var_dtype) and proved
+               (Props: mean_dtype_promotion, var_dtype_promotion)."""
 import itertools
 import json
 import math
@@ -788,8 +792,9 @@ def campaign(build, tier, seed, report, budget=1):
     cov["api_cases"] = len(cases)
     cov["kernel_cases"] = len(klits)
     cov["differential_only"] = {"cases": len(dc), "by_function": dcount,
-                                "note": "mean/var/std vs NumPy and exact rationals; nan-reductions on float data with NaN; "
-                                        "dtype= requests and result dtypes; compared in Python, not in Coq"}
+                                "note": "mean/var/std/nanmean and sum/prod/any/all/min/max over all data dtypes (values and result "
+                                        "dtype vs NumPy, exact rationals for mean/var/std); nan-reductions on float32/64 data with "
+                                        "NaN; dtype= requests; inf fills; compared in Python, not in Coq"}
     cov["rule"] = ("exhaustive over ordered axis subsets (and negative spellings, None, ints) of 0..4-d shapes x keepdims, "
                    "with seeded choice of ufunc, spelling, format (COO/GCXS, every compressed-axes subset in a separate sweep), "
                    "fill, extents {0,1,2,3} and a row-structured pattern (absent/deficient/complete groups); a malformed-axis "
